@@ -405,7 +405,8 @@ impl Prop for C14 {
 #[derive(Clone, Debug, Serialize, Deserialize)]
 pub struct RaceCase {
     pub limit: usize,
-    /// 0: insert || delete, 1: overwrite || batch delete, 2: bulk insert || delete
+    /// 0: insert || delete, 1: overwrite || batch delete (ids), 2: bulk insert || delete,
+    /// 3: overwrite || batch delete by filter
     pub flavour: u8,
     pub rounds: u32,
 }
@@ -428,7 +429,7 @@ impl Prop for Race {
     }
     fn decode(&self, raw: &Raw, tier: Tier) -> RaceCase {
         let mut t = Tape::new(&raw.head);
-        RaceCase { limit: 3 + t.below(3), flavour: t.below(3) as u8, rounds: tier.pick(150, 600) + t.below(50) as u32 }
+        RaceCase { limit: 3 + t.below(3), flavour: t.below(4) as u8, rounds: tier.pick(150, 600) + t.below(50) as u32 }
     }
     fn run(&self, case: &RaceCase, env: &CaseEnv) -> Result<CaseReport, Failure> {
         let shard = super::c10::SHARD.with(|s| *s);
@@ -452,6 +453,10 @@ impl Prop for Race {
                             } else {
                                 let _ = c.insert(with_key(req(1, Bad::No), Some(&key))).await;
                             }
+                        } else if flavour == 3 {
+                            // req(1, ..) carries metadata tag = "1"
+                            let f = pb::MetadataFilter { filter_type: Some(pb::metadata_filter::FilterType::Exact(pb::ExactMatch { key: "tag".into(), value: "1".into() })) };
+                            let _ = c.batch_delete(with_key(pb::BatchDeleteRequest { delete_criteria: Some(pb::batch_delete_request::DeleteCriteria::Filter(f)), namespace: String::new() }, Some(&key))).await;
                         } else if flavour == 1 {
                             let _ = c.batch_delete(with_key(pb::BatchDeleteRequest { delete_criteria: Some(pb::batch_delete_request::DeleteCriteria::Ids(pb::IdList { doc_ids: vec![1, 2] })), namespace: String::new() }, Some(&key))).await;
                         } else {
